@@ -83,6 +83,12 @@ TRIM_PATS = {                    # hazard: leading/trailing blank, indented cont
 CONSTS = ['5', 'zq', '1.5', 'a b', 'True', '[1, 2]', '{1+1}', '日本', '-3', 'x y z']
 MULTILINE_CONSTS = ['zq\nzr', '1\n2']
 RENORM_CONSTS = ["'s'", '"q"', '0x10', '1.50', '007', 'null', '+5']     # hazard: read back as another text
+EMPTY_CONSTS = ['', '', ' ', '  ']           # the empty constant `` and constants made of blanks (value '')
+# single-backtick constants that literal_eval turns into NON-FINITE floats (repr() is the bare name inf):
+# pretty() prints them `inf`, a word -> for C13 they fall under the recorded 'const-renormalised' mechanism
+NONFINITE_CONSTS = ['1e999', '-1e999']
+NONFINITE_PARAMS = [float('inf'), float('-inf')]
+NUMERIC_FIRST_PARAMS = [1, 7, 0, 2.5, 42]
 ALERTS = ['msg', 'something odd', 'x{1+1}', 'a b']
 NUMERIC_ALERTS = ['5', '1.5', 'True']                                  # hazard: non-str literal after read-back
 METAS = ['int', 'uint', 'float', 'bool', 'name']
@@ -200,6 +206,8 @@ def pat_text(rx: str) -> str:
 
 
 def const_text(t: str, alert=False) -> str:
+    if t in NONFINITE_CONSTS and not alert:
+        return '`' + t + '`'          # read as the float inf / -inf
     # the triple form keeps the text as a str; the single form would read 's'/0x10/5 as literals
     if '\n' in t or renormalised(t) or (alert and numeric_like(t)):
         return '```' + t + '```'
@@ -318,6 +326,8 @@ def txt_item(e):
 
 
 def param_text(p):
+    if isinstance(p, float) and p in (float('inf'), float('-inf')):
+        return '1e999' if p > 0 else '-1e999'
     if isinstance(p, str):
         if p.isidentifier() and p not in ('None', 'True', 'False', 'true', 'false', 'null'):
             return p
@@ -407,6 +417,8 @@ def build_model(g: L.Grammar, name=None):
         if T is L.OverList:
             return peg.OverrideList(exp=bt(e.e))
         if T is L.Const:
+            if e.text in NONFINITE_CONSTS:
+                return peg.Constant(literal=float(e.text))     # what the text route stores
             return peg.Constant(literal=e.text)
         if T is L.Alert:
             return peg.Alert(literal=e.text, level=e.level)
@@ -470,10 +482,13 @@ def _calls(e):
 class Profile:
     """rates of the extended forms; hazards are drawn at a limited rate"""
 
-    def __init__(self, hazard_rate=0.22, hostile_rate=0.5, style_rate=0.0):
+    def __init__(self, hazard_rate=0.22, hostile_rate=0.5, style_rate=0.0, nonfinite_rate=0.0):
         self.hazard_rate = hazard_rate
         self.hostile_rate = hostile_rate
         self.style_rate = style_rate
+        # non-finite float constants/parameters outside the hazard budget (C14: nothing is pretty-printed there;
+        # for C13 the constants are a 'const-renormalised' hazard and the parameters print as the word inf)
+        self.nonfinite_rate = nonfinite_rate
 
 
 def gen_case(rng: random.Random, profile: Profile | None = None):
@@ -589,6 +604,14 @@ def gen_case(rng: random.Random, profile: Profile | None = None):
     if rng.random() < 0.15:
         feats.add('meta')
         add_to_seq(rng.choice(g.rules), L.Meta(rng.choice(METAS)), 'any')
+    if rng.random() < 0.07:
+        # the empty constant `` and constants made of blanks
+        c = L.Const(rng.choice(EMPTY_CONSTS))
+        if rng.random() < 0.4:
+            c = L.Named(rng.choice(['n', 'm', 'e']), c)
+        add_to_seq(rng.choice(g.rules), c, 'any')
+    if profile.nonfinite_rate and rng.random() < profile.nonfinite_rate:
+        add_to_seq(rng.choice(g.rules), L.Const(rng.choice(NONFINITE_CONSTS)), 'any')
 
     # ---- fragment rules first (include / base targets must be defined earlier and call nothing)
     frags = []
@@ -631,6 +654,23 @@ def gen_case(rng: random.Random, profile: Profile | None = None):
         elif y < 0.13:
             r_.decorators = ('isname',)
             feats.add('dec_isname')
+    if rng.random() < 0.06:
+        # a NUMBER as first parameter (under model-building semantics the first parameter names the node type)
+        cands = [x for x in g.rules if not x.base]
+        if cands:
+            r_ = rng.choice(cands)
+            ps = [rng.choice(NUMERIC_FIRST_PARAMS)]
+            if rng.random() < 0.5:
+                ps.append(rng.choice(['x', 'A', 'Node']))
+            r_.params = tuple(ps)
+    if profile.nonfinite_rate and rng.random() < profile.nonfinite_rate:
+        cands = [x for x in g.rules if not x.base]
+        if cands:
+            r_ = rng.choice(cands)
+            x = rng.choice(NONFINITE_PARAMS)
+            r_.params = rng.choice([(x,), ('A', x), (x, 'b')])
+            # (non-finite KEYWORD parameter values are left out: on this tree the emitted model source prints
+            # kwparams={'k': inf} and does not load - reported, not yet recorded)
     if rng.random() < 0.08:
         # an @override redefinition of an existing rule (the later definition wins)
         victim = rng.choice(g.rules)
@@ -728,6 +768,16 @@ def gen_case(rng: random.Random, profile: Profile | None = None):
             if isinstance(x, L.Join) and getattr(x, 'assoc', ''):
                 feats.add('assoc_join')
                 feats.add('assoc_join:' + x.assoc)
+            elif isinstance(x, L.Const) and x.text.strip(' ') == '':
+                feats.add('empty_constant')
+            elif isinstance(x, L.Const) and x.text in NONFINITE_CONSTS:
+                feats.add('nonfinite_float')
+                feats.add('nonfinite_float:constant')
+        if r_.params and isinstance(r_.params[0], (int, float)) and not isinstance(r_.params[0], bool):
+            feats.add('numeric_first_param')
+        if any(isinstance(p, float) and p in NONFINITE_PARAMS for p in list(r_.params) + [v for _, v in r_.kwparams]):
+            feats.add('nonfinite_float')
+            feats.add('nonfinite_float:param')
     feats |= {'hz:' + h for h in hazards(g)}
     return g, start, feats, pats
 
@@ -835,6 +885,11 @@ def _inj_const_renorm(rng, g, start, pats, add):
     add(rng.choice(g.rules), L.Const(rng.choice(RENORM_CONSTS)), 'any')
 
 
+def _inj_const_nonfinite(rng, g, start, pats, add):
+    c = L.Const(rng.choice(NONFINITE_CONSTS))
+    add(rng.choice(g.rules), L.Named('x', c) if rng.random() < 0.3 else c, 'any')
+
+
 def _inj_alert_numeric(rng, g, start, pats, add):
     add(rng.choice(g.rules), L.Alert(rng.choice(NUMERIC_ALERTS), rng.choice([1, 2])), 'any')
 
@@ -898,6 +953,7 @@ HAZARD_INJECT = {
     'pattern-trim': _inj_pat_trim,
     'param-numlike': _inj_param_numlike,
     'const-renormalised': _inj_const_renorm,
+    'const-renormalised:nonfinite': _inj_const_nonfinite,      # same mechanism (hazard 'const-renormalised')
     'alert-numeric': _inj_alert_numeric,
     'param-nonstr': _inj_param_nonstr,
     'keyword-then-params': _inj_keyword_params,
